@@ -356,6 +356,18 @@ func (p *printer) attrs(as []Attr, depth int) {
 			} else {
 				fmt.Fprintf(&p.sb, "%sclass={ env.K(1), templ.KV(env.K(2), env.C(%s)) }", sep, num(a.C))
 			}
+		case "classmix":
+			if p.v == 1 {
+				fmt.Fprintf(&p.sb, "%sclass={\"card\", boxed(), \"wide\"}", sep)
+			} else {
+				fmt.Fprintf(&p.sb, "%sclass={ \"card\", boxed(), \"wide\" }", sep)
+			}
+		case "scriptcall2":
+			if p.v == 1 {
+				fmt.Fprintf(&p.sb, "%s%s={span2(1, 2)}", sep, a.N)
+			} else {
+				fmt.Fprintf(&p.sb, "%s%s={ span2(1, 2) }", sep, a.N)
+			}
 		case "cssclassx":
 			if p.v == 1 {
 				fmt.Fprintf(&p.sb, "%sclass={tinted(\"green\")}", sep)
@@ -758,9 +770,9 @@ func HeaderV(pkg string, v Variant) string {
 	}
 	switch v {
 	case 0:
-		return h + "script greet(a string) {\n\talert(a);\n}\n\ncss boxed() {\n\tcolor: red;\n\t--brandColor: blue;\n}\n\ncss tinted(c string) {\n\t--accentColor: { c };\n}\n\n"
+		return h + "script greet(a string) {\n\talert(a);\n}\n\nscript span2(lo, hi int) {\n\tshow(lo, hi);\n}\n\ncss boxed() {\n\tcolor: red;\n\t--brandColor: blue;\n}\n\ncss tinted(c string) {\n\t--accentColor: { c };\n}\n\n"
 	default:
-		return h + "script greet(a string) {\n\talert(a);\n\t}\n\ncss boxed() {\n\tcolor: red;\n\t--brandColor: blue;\n\t}\n\ncss tinted(c string) {\n\t--accentColor: { c };\n\t}\n\n"
+		return h + "script greet(a string) {\n\talert(a);\n\t}\n\nscript span2(lo, hi int) {\n\tshow(lo, hi);\n\t}\n\ncss boxed() {\n\tcolor: red;\n\t--brandColor: blue;\n\t}\n\ncss tinted(c string) {\n\t--accentColor: { c };\n\t}\n\n"
 	}
 }
 
